@@ -215,6 +215,8 @@ def src_body(body, ind):
             out += src_body(st[2], ind + 1)
         elif t == "wait":
             out.append(f"{pad}match Never()")
+        elif t == "waitev":
+            out.append(f"{pad}match {st[1]}()")
         else:
             raise ValueError(t)
     return out
@@ -950,6 +952,66 @@ def oracle_mut(spec, res):
     return None
 
 
+# ---- family T: an activated flow that reassigns its parameters and locals, finishes on an event
+#      and is restarted (oracle only: event stepping is outside the big-step model; the binding of
+#      the restart event itself is C08_restart_binds_original_call + check_restart)
+
+
+def gen_restart_spec(rng):
+    sig = gen_sig(rng, "counter", n=rng.randint(1, 3))
+    sig["rets"] = []
+    names = [p[0] for p in sig["params"]]
+    args = gen_args(rng, sig, ["y", "z"], "wf")
+    syntax, args = pick_syntax(rng, args)
+    body = [echo_of(1, names + ["loc", "tmp"]), ["waitev", "Tick"]]
+    for nm in names:
+        if rng.random() < 0.8:
+            body.append(["assign", nm, ["lit", rng.choice(["changed", 777, [9], {"c": 1}, False, 0])]])
+    body.append(["assign", "loc", ["lit", rand_value(rng, 1)]])
+    if names and rng.random() < 0.5:
+        body.append(["assign", "tmp", ["var", names[0]]])
+    body.append(echo_of(2, names + ["loc"]))
+    sig["body"] = body
+    mbody = [["assign", "y", ["lit", rand_value(rng, 1)]], ["assign", "z", ["lit", rand_value(rng, 1)]],
+             ["assign", "loc", ["lit", rand_value(rng, 0)]],
+             ["call", "activate", syntax, "counter", args, None], ["echo", 99, []], ["wait"]]
+    main = {"name": "main", "params": [], "rets": [], "body": mbody}
+    return {"prog": {"flows": [sig, main]}, "ticks": rng.randint(2, 4)}
+
+
+def oracle_restart(spec, res):
+    """EVERY instance of the activation (the first and each restarted one) binds its parameters per
+    the binding rule from the ORIGINAL call, and starts with its locals undefined"""
+    sig, main = spec["prog"]["flows"]
+    call = [st for st in main["body"] if st[0] == "call"][0]
+    caller = {}
+    for st in main["body"]:
+        if st[0] == "assign":
+            caller[st[1]] = pyeval(st[2], caller)
+        elif st[0] == "call":
+            break
+    want = dict(zip([p[0] for p in sig["params"]], bound_vector(sig, call[4], caller)))
+    for lcl in ("loc", "tmp"):
+        if lcl not in want:          # a parameter may itself be called `loc`
+            want[lcl] = None
+    if res.get("crashed"):
+        return ("restarted-activation-run-raised", res["crashed"])
+    starts = [dict(items) for t, items in res["echoes"] if t == 1]
+    if len(starts) != spec["ticks"] + 1:
+        return ("activated-flow-not-restarted", f"{len(starts)} instances started for {spec['ticks']} ticks (expected {spec['ticks'] + 1})")
+    for n_inst, e in enumerate(starts):
+        for k, w in want.items():
+            if k not in e or not same_value(e[k], w):
+                which = "first instance" if n_inst == 0 else f"restarted instance #{n_inst}"
+                is_local = k in ("loc", "tmp") and k not in [p[0] for p in sig["params"]]
+                sigk = ("restarted-instance-local-not-fresh" if is_local
+                        else "restarted-instance-parameter-not-from-original-call" if n_inst > 0
+                        else "e2e-param-not-bound")
+                return (sigk, f"{which} starts with `{k}`={e.get(k, '<missing>')!r}; the original call binds {w!r}"
+                        if not is_local else f"{which} starts with local `{k}`={e.get(k)!r} (assigned by its predecessor)")
+    return None
+
+
 def gen_prog_R(rng):
     """family R: a recursive flow; every level assigns the same-named local before the inner call
     and echoes it afterwards.  The direct oracle applies (privacy between instances of one flow)."""
@@ -1063,8 +1125,23 @@ def _impl_bind_job(job, sm, v2util, CRE):
                 results.append({"r": "toomany", "msg": str(e)[:80]})
                 continue
             same = shared_dict is not None and fs.context is shared_dict
-            results.append({"r": "bound", "args": [[k, v] for k, v in fs.arguments.items()],
-                            "ctx": [[k, v] for k, v in fs.context.items()], "aliased": same})
+            rr = {"r": "bound", "args": [[k, v] for k, v in fs.arguments.items()],
+                  "ctx": [[k, v] for k, v in fs.context.items()], "aliased": same}
+            if shared_dict is None:
+                # the restart of an activated flow: a successor bound from start_event()
+                try:
+                    d2 = dict(fs.start_event([]).arguments)
+                    d2["source_flow_instance_uid"] = main_uid
+                    fs2 = sm.create_flow_instance(cfg, "(f)again", "0.1", d2)
+                    try:
+                        sm._start_flow(state, fs2, d2)
+                        rr["restart"] = {"r": "bound", "args": [[k, v] for k, v in fs2.arguments.items()],
+                                         "ctx": [[k, v] for k, v in fs2.context.items()]}
+                    except CRE:
+                        rr["restart"] = {"r": "toomany"}
+                except Exception as e:
+                    rr["restart"] = {"r": "exc", "msg": type(e).__name__ + ": " + str(e)[:200]}
+            results.append(rr)
         except Exception as e:  # nothing else is predicted by the model
             results.append({"r": "exc", "msg": type(e).__name__ + ": " + str(e)[:200]})
     return {"results": results}
@@ -1136,6 +1213,34 @@ def _impl_mut_job(job, sm, v2util, CRE):
                                               if k not in ("type", "uid", "event_created_at", "source_uid", "tag") and _plain(v)]])
         runs.append({"echoes": echoes, "crashed": crashed})
     return {"runs": runs, "src": src}
+
+
+def _impl_restart_job(job, sm, v2util, CRE):
+    spec = job["spec"]
+    src = src_prog(spec["prog"])
+    try:
+        state = v2util.init_state(src)
+    except Exception as e:
+        return {"error": "parse: " + type(e).__name__ + ": " + str(e)[:300], "src": src}
+    echoes = []
+    crashed = None
+
+    def grab():
+        for e in state.outgoing_events:
+            if isinstance(e, dict) and e.get("type") == "Echo":
+                echoes.append([e.get("tag"), [[k, v] for k, v in e.items()
+                                              if k not in ("type", "uid", "event_created_at", "source_uid", "tag") and _plain(v)]])
+    try:
+        v2util.start_main(state)
+        grab()
+        for _ in range(spec["ticks"]):
+            v2util.step(state, {"type": "Tick"})
+            grab()
+    except sm.VerifStepBudgetExceeded:
+        crashed = "step budget exceeded (non-terminating run)"
+    except Exception as e:
+        crashed = type(e).__name__ + ": " + str(e)[:200]
+    return {"echoes": echoes, "crashed": crashed, "src": src}
 
 
 def _plain(v):
@@ -1211,6 +1316,8 @@ def child_main(inp, outp):
         try:
             if job["kind"] == "bind":
                 res.append(_impl_bind_job(job, sm, v2util, CRE))
+            elif job["kind"] == "restart":
+                res.append(_impl_restart_job(job, sm, v2util, CRE))
             elif job["kind"] == "mut":
                 res.append(_impl_mut_job(job, sm, v2util, CRE))
             elif job["kind"] == "actref":
@@ -1479,12 +1586,14 @@ def run(tier, seed, replay=None):
     n_V = 250 if tier == "quick" else 2500
     n_actref = 120 if tier == "quick" else 1200
     n_M = 60 if tier == "quick" else 600
+    n_T = 120 if tier == "quick" else 1200
 
     # ---- cases: corpus first, then replay, then generated
     bind_cases = []   # (sig, ev)
     prog_cases = []   # prog
     actref_cases = []  # {"sig", "insts", "calls"}
     mut_cases = []     # spec
+    restart_cases = []  # spec
     corpus_n = 0
     corpus_dir = os.path.join(C.VERIF, "corpus", PID)
     stored = []
@@ -1496,7 +1605,7 @@ def run(tier, seed, replay=None):
     if replay:
         d = json.load(open(replay))
         stored.append(d.get("replay", d))
-        n_sig = n_A = n_B = n_O4 = n_R = n_G = n_V = n_actref = n_M = 0
+        n_sig = n_A = n_B = n_O4 = n_R = n_G = n_V = n_actref = n_M = n_T = 0
     for d in stored:
         if d.get("kind") == "bind":
             bind_cases.append((d["sig"], d["ev"]))
@@ -1506,6 +1615,10 @@ def run(tier, seed, replay=None):
             actref_cases.append(d["case"])
         elif d.get("kind") == "mut":
             mut_cases.append(d["spec"])
+        elif d.get("kind") == "restart":
+            restart_cases.append(d["spec"])
+    for _ in range(n_T):
+        restart_cases.append(gen_restart_spec(rng))
     for _ in range(n_M):
         mut_cases.append(gen_mut_spec(rng))
     for _ in range(n_actref):
@@ -1540,6 +1653,7 @@ def run(tier, seed, replay=None):
     jobs += [{"kind": "prog", "prog": p} for p in prog_cases]
     jobs += [{"kind": "actref", **c} for c in actref_cases]
     jobs += [{"kind": "mut", "spec": c} for c in mut_cases]
+    jobs += [{"kind": "restart", "spec": c} for c in restart_cases]
     impl_res, impl_errs = run_impl(jobs, timeout=600 if tier == "quick" else 3000)
     for e in impl_errs:
         out.add_broken("impl-run:C08", e)
@@ -1554,7 +1668,9 @@ def run(tier, seed, replay=None):
             bind_res[i] = rr
     prog_res = impl_res[len(bind_jobs): len(bind_jobs) + len(prog_cases)]
     actref_res = impl_res[len(bind_jobs) + len(prog_cases): len(bind_jobs) + len(prog_cases) + len(actref_cases)]
-    mut_res = impl_res[len(bind_jobs) + len(prog_cases) + len(actref_cases):]
+    _o = len(bind_jobs) + len(prog_cases) + len(actref_cases)
+    mut_res = impl_res[_o: _o + len(mut_cases)]
+    restart_res = impl_res[_o + len(mut_cases):]
 
     seen = set()
     n_nontrivial = 0
@@ -1689,6 +1805,49 @@ def run(tier, seed, replay=None):
             out.findings.append(C.Finding(v[0], v[1], {"kind": "mut", "spec": spec, "source": r["src"], "impl": r["runs"]}))
     dist["mutable_default_programs_oracle_only"] = n_mut
 
+    # ---- restarted activations (oracle only)
+    n_restart = 0
+    for spec, r in zip(restart_cases, restart_res):
+        if r is None:
+            continue
+        if "error" in r:
+            out.add_broken("impl-run:C08-restart", r["error"] + "\n" + r.get("src", ""))
+            continue
+        n_restart += 1
+        v = oracle_restart(spec, r)
+        if v:
+            out.findings.append(C.Finding(v[0], v[1], {"kind": "restart", "spec": spec, "source": r["src"],
+                                                       "impl": {"echoes": r["echoes"], "crashed": r["crashed"]}}))
+    dist["restarted_activation_programs_oracle_only"] = n_restart
+
+    # ---- function level: the restart event (start_event of a bound instance) binds again
+    rterms, rkept = [], []
+    for sig, ev, res in kept:
+        rs_ = res.get("restart")
+        if res["r"] != "bound" or not rs_:
+            continue
+        if rs_["r"] == "exc":
+            out.findings.append(C.Finding("restart-bind-unexpected-exception", rs_["msg"], {"kind": "bind", "sig": sig, "ev": ev}))
+            continue
+        try:
+            x = "XTooMany" if rs_["r"] == "toomany" else f"(XBound {cctx(rs_['args'])} {cctx(rs_['ctx'])})"
+            rterms.append(f"({cparams(sig['params'])}, {cparams(sig['rets'])}, {cctx(ev['items'])}, {x})")
+            rkept.append((sig, ev, res))
+        except Unsupported:
+            continue
+    n_restart_dis = 0
+    if okm and rterms:
+        bools, err = C.run_cases(PID + "_restart", PREAMBLE, rterms, "check_restart")
+        if err:
+            out.add_broken("correspondence:C08-restart(coqc)", err)
+        else:
+            bad = [c for ok, c in zip(bools, rkept) if not ok]
+            n_restart_dis = len(bad)
+            if bad:
+                sig, ev, res = min(bad, key=lambda c: len(json.dumps(c[0])) + len(json.dumps(c[1])))
+                out.add_broken("correspondence:C08-restart",
+                               f"{len(bad)} disagreements; smallest: {src_sig(sig)} event_arguments={ev} first={res['args']} restarted={res['restart']}")
+
     # ---- end to end
     pterms, pkept = [], []
     n_calls = 0
@@ -1758,7 +1917,8 @@ def run(tier, seed, replay=None):
                                f"{len(bad)} disagreements; smallest program:\n{res['src']}\nimpl: outcome={res['outcome']} echoes={res['echoes']} finals={res.get('finals')} globals={res.get('globals')}\nmodel: {model[-2500:]}")
 
     out.coverage.update({
-        "evaluations": len(terms) + len(pterms) + len(aterms),
+        "evaluations": len(terms) + len(pterms) + len(aterms) + len(rterms),
+        "restart_rebinds_function_level": len(rterms),
         "activation_reference_lookups_function_level": len(aterms),
         "calls_bound_function_level": len(terms),
         "calls_end_to_end": n_calls,
@@ -1769,7 +1929,7 @@ def run(tier, seed, replay=None):
                    + [{"program": r["src"], "outcome": r["outcome"], "echoes": r["echoes"]} for _p, r in pkept[:2]],
         "input_distribution": dist | {"corpus_cases": corpus_n},
         "traces_validated_against_impl": len(terms) + len(pterms) + len(aterms),
-        "correspondence_disagreements": n_bind_dis + n_prog_dis + n_act_dis,
+        "correspondence_disagreements": n_bind_dis + n_prog_dis + n_act_dis + n_restart_dis,
         "oracle_violations": len(out.findings),
         "observations_outside_the_premise": {"counts": obs, "examples": obs_examples,
             "text": "O1: surplus positional arguments are rejected only when the flow has no parameter or more than 2n are given; otherwise the callee runs with the first n, its context gains keys `$j`, and the caller waits forever (its FlowStarted match mentions `$n`). O2: a parameter given positionally and by name gets the positional value; the caller waits forever when the two values differ. O3: a named argument that is no parameter is ignored by the callee and leaves the caller waiting forever. O4: `$x = await f` where f ends without executing `return` fails the caller (ColangValueError on `.arguments.return_value`). O6: an activation that omits a parameter WITHOUT default is never identified with an earlier one (C08_obs_activation_omitted_without_default). O7: re-activating with equal values through another call form (e.g. `activate w $a=1` then `activate w 1`) reuses the instance, but the reference's FlowStarted event lacks the `$0` key the caller's match mentions, so the caller waits forever - same root cause as O5 (FlowStarted match carries the call arguments), removed by the same candidate patch; modelled, counted, not claimed. O1-O4 are not claimed or counted as violations: the property text presupposes a corresponding positional or named argument and a value given to `return`. O5 (KNOWN FINDING, well-formed call): the caller's FlowStarted match re-evaluates the call arguments when the event arrives, so a callee that changes a global used in an argument before it is started leaves the caller of `$x = await f(..)` waiting forever; reported through the oracle with signature " + O5_SIG + "; candidate repair fixes/C08-flowstarted-match.patch (not applied: it changes match specificity scores).",
@@ -1778,6 +1938,7 @@ def run(tier, seed, replay=None):
     out.assumptions += [
         "expression evaluation is an arbitrary total function eval : ctx -> expr -> value in the theorems (expressions that raise are outside the model); the correspondence uses literals of every value type, variables, list/dict displays and `$n - 1`",
         "Python heap aliasing of mutable argument values is not modelled (values are copied); a shared context (context=$self.context) IS modelled, by two instances owning the same heap cell",
+        "the restart of an activated flow on an external event (finish, StartFlow built by start_event, new instance) is exercised end to end by family T with the oracle only (event stepping is outside the big-step model of BindRun.v); what the restart event binds is proved (C08_restart_binds_original_call) and tied at function level (check_restart on the real start_event() arguments)",
         "freshness of default VALUES (each instance that omits an argument gets an independent value, also across conversations in one process; non-constant default expressions are evaluated per instance) is observable only through in-place mutation, i.e. heap behaviour: it is covered by the oracle alone (family M: `($bag.append(..))`, `($d.update(..))`, recursion, `\"t_{uid()}\"` defaults, two conversations in one process), not by the Coq model, where `default_val` is re-evaluated per instance by construction",
         "signatures have distinct identifier parameter names that are not keys the runtime writes itself (flow_id, flow_instance_uid, activated, source_flow_instance_uid, source_head_uid, flow_hierarchy_position, context) and return members distinct from parameters",
         "end-to-end programs are deterministic and single-threaded: callees run until they finish or reach `match Never()`; the big-step interpreter of V2/BindRun.v is validated against the real interpreter on exactly this class (scheduling in general is the business of C05/C09/C10)",
